@@ -8,6 +8,7 @@ import Driver.Ops.Grp
 import Driver.Ops.Sec
 import Driver.Ops.Dis
 import Driver.Ops.Orb
+import Driver.Ops.Chunk
 import Driver.Ops.Codec
 /-
 Line-protocol driver.  One request per line (`<op> <args…>`), one response line per request.
@@ -28,6 +29,7 @@ def handlers : List (String × (List String → String)) := [
   ("sec", Sec.handle),
   ("dis", Dis.handle),
   ("orb", Orb.handle),
+  ("chunk", ChunkOp.handle),
   ("codec", Codec.handle)
 ]
 
